@@ -195,3 +195,7 @@ impl<T, S> transmission::interest::Provider for IncrementalValueSync<T, S> {
         self.delivery.transmission_interest(query)
     }
 }
+
+#[cfg(all(aws_s2n_quic_verif, any(test, all(kani, feature = "testing"))))]
+#[path = "/verif/harness/transport/ivs.rs"]
+mod verif;
